@@ -101,6 +101,18 @@ theorem reap_idempotent {c : Ctx D} (g : Good c) (oth : Nat → Option (Dir D)) 
     execOps c.A c.plan (mk c oth p pl pt) = .ok (mk c oth (.renamed (finalDw c)) pl pt) :=
   exec_plan g oth pl pt p hp hr
 
+/-- `Store.Reap()` on a running store that still has a REAP_PLAN (an earlier reap in this process
+stopped with an error) resumes it through reapInternal, without the `LastOpDone` shortcut: from any
+state short of the final rename that completes the reap and removes the plan. (Once the rename is
+done, this path fails on the CRC step until the next start, where `check` removes the plan — see
+`reap_crash_safe`; it does not damage anything: `execOp … (.calcCrc …)` fails before writing.) -/
+theorem reap_resumes_interrupted_plan {c : Ctx D} (g : Good c) (oth : Nat → Option (Dir D)) (pt : Bool)
+    (p : Prog D) (hp : ProgOK c p) (hr : p.isRenamed = false) (nn : Nat) (v : Bool) :
+    reap c.A (mk c oth p (some c.plan) pt) nn v = .ok (mk c oth (.renamed (finalDw c)) none pt) := by
+  have h1 : (mk c oth p (some c.plan) pt).plan = some c.plan := rfl
+  simp only [reap, h1, exec_plan g oth _ pt p hp hr]
+  rfl
+
 /-- … and a second reap of the consolidated store is a no-op. -/
 theorem reap_again_noop {c : Ctx D} (g : Good c) (dw : Option Nat) (newName' : Nat) (verify' : Bool) :
     reap c.A (mk c noOth (.renamed dw) none false) newName' verify' = .ok (mk c noOth (.renamed dw) none false) := by
